@@ -29,8 +29,13 @@ def seed():
 
 
 def known_findings():
-    with open(KNOWN_FILE) as f:
-        return {k["id"]: k for k in json.load(f)["findings"]}
+    import glob
+    out = {}
+    for p in [KNOWN_FILE] + sorted(glob.glob(os.path.join(VERIF, "known_findings.d", "*.json"))):
+        with open(p) as f:
+            for k in json.load(f)["findings"]:
+                out[k["id"]] = k
+    return out
 
 
 class Verdict:
